@@ -188,7 +188,7 @@ func replayRaceWitnesses(ctx *common.Ctx, raceBin, dir string) {
 		for k := 0; k < reps && !found; k++ {
 			j := job{ID: 0, Kind: "lisp", NMutex: w.NMutex, Caps: w.Caps, Cells: w.Cells, Setup: w.Setup, Runs: w.Runs, Results: w.Results,
 				Procs: []int{4, 8, 2}[k%3], HardMS: 8000}
-			outs := runJobs(raceBin, dir, []job{j}, []string{"GORACE=halt_on_error=0", "VERIF_C17_COLD=1"})
+			outs := runJobs(raceBin, dir, []job{j}, []string{"GORACE=halt_on_error=0"})
 			oc := outs[0]
 			for _, rep := range oc.Races {
 				if rx.MatchString(rep) {
@@ -245,14 +245,10 @@ func Run(ctx *common.Ctx) {
 		pct, slow := p.Yield, p.Slow
 		// synchronized instances of the program: now and then a routine sets them synchronized again or asks whether
 		// they are (both must be without effect; an instance reported as not synchronized raises an error that
-		// nothing in the model accounts for).  Not in programs with exits (see HasExit).
+		// nothing in the model accounts for).
 		var insts []int
-		exits := false
-		for _, rt := range p.Code {
-			exits = exits || HasExit(rt)
-		}
 		for x, kind := range p.Cells {
-			if (kind == "clos" || kind == "flavor") && !exits {
+			if kind == "clos" || kind == "flavor" {
 				insts = append(insts, x)
 			}
 		}
@@ -295,6 +291,16 @@ func Run(ctx *common.Ctx) {
 	for _, ij := range impls {
 		all = append(all, ij.Job)
 	}
+	// scenarios for the scopes shared by routines (second correspondence, coq/C17/ScopeModel.v)
+	nscope := 60
+	if ctx.Thorough() {
+		nscope = 600
+	}
+	scopeJobs := genScopes(ctx, nscope)
+	for k := range scopeJobs {
+		scopeJobs[k].Job.ID = len(all)
+		all = append(all, scopeJobs[k].Job)
+	}
 	// two plain workers side by side
 	half := len(all) / 2
 	var outsA, outsB []jobOutcome
@@ -327,6 +333,17 @@ func Run(ctx *common.Ctx) {
 		ctx.Hist("shape:" + p.Shape)
 		ctx.Hist("search:" + verdict)
 		ctx.Hist(fmt.Sprintf("procs:%d", p.Procs))
+		for _, rt := range p.Code {
+			if HasExit(rt) {
+				ctx.Hist("programs with return-from / go")
+				break
+			}
+		}
+		if p.Cold {
+			ctx.Hist("rendering:routine bodies are never-called functions")
+		} else {
+			ctx.Hist("rendering:one form per routine")
+		}
 		if obs.Crash {
 			ctx.Hist("outcome:process-died")
 		} else if oc.Res.Deadlock {
@@ -365,6 +382,25 @@ func Run(ctx *common.Ctx) {
 		}
 	}
 
+	var sterms []string
+	var sdescs []any
+	for k := range scopeJobs {
+		sj := &scopeJobs[k]
+		oc := &outs[len(progs)+len(impls)+k]
+		ctx.Hist("shape:scopes")
+		ctx.Hist(fmt.Sprintf("scopes:routines:%d", len(sj.Probes)))
+		ctx.Meta.Evaluations++
+		term, complaint := scopeCase(sj, oc)
+		if complaint != "" {
+			ctx.Violate("scope scenario: "+complaint, map[string]any{"routines": sj.Job.Runs, "procs": sj.Job.Procs}, oc.Stderr,
+				"every routine finishes and reports its probes")
+			continue
+		}
+		sterms = append(sterms, term)
+		sdescs = append(sdescs, map[string]any{"shape": "scopes", "routines": sj.Job.Runs, "model_operations": sj.Codes, "procs": sj.Job.Procs})
+		distinct[term] = true
+	}
+
 	// ---- race-enabled worker: a sample of the model programs, the implementation-only jobs, the witnesses ----
 	raceBin := <-raceCh
 	ctx.Meta.Notes = append(ctx.Meta.Notes, raceCtx.Meta.Notes...)
@@ -395,6 +431,11 @@ func Run(ctx *common.Ctx) {
 			rjobs = append(rjobs, ij.Job)
 			what = append(what, ij.Shape)
 		}
+		for _, sj := range genScopes(ctx, 25) {
+			sj.Job.ID = len(rjobs)
+			rjobs = append(rjobs, sj.Job)
+			what = append(what, "scopes")
+		}
 		routs := runJobs(raceBin, dir, rjobs, []string{"GORACE=halt_on_error=0"})
 		races := 0
 		for k := range routs {
@@ -414,7 +455,11 @@ func Run(ctx *common.Ctx) {
 					map[string]any{"setup": rjobs[k].Setup, "routines": rjobs[k].Runs, "procs": rjobs[k].Procs},
 					map[string]any{"signatures": common.SortedKeys(sigs), "first_report": first}, "no data race")
 			}
-			if k >= nmodel {
+			if k >= nmodel+len(rimpl) {
+				if oc.Res == nil || oc.Res.Hang || oc.Res.Deadlock || oc.Res.Err != "" {
+					ctx.Violate("scope scenario under the race detector: the routines did not all finish", map[string]any{"routines": rjobs[k].Runs}, oc.Crash+oc.Stderr, nil)
+				}
+			} else if k >= nmodel {
 				if msg := judgeImpl(&rimpl[k-nmodel], oc); msg != "" {
 					ctx.Violate("implementation-only check under the race detector ("+what[k]+"): "+msg,
 						map[string]any{"setup": rjobs[k].Setup, "routines": rjobs[k].Runs}, oc.Stderr, nil)
@@ -437,4 +482,7 @@ func Run(ctx *common.Ctx) {
 	header := "From C17 Require Import Model Spec Corr.\nOpen Scope nat_scope.\n"
 	footer := "Definition res := Eval vm_compute in check_all cases.\nPrint res.\nDefinition steps := Eval vm_compute in sched_steps cases.\nPrint steps.\nDefinition undecided_cases := Eval vm_compute in undecided cases.\nPrint undecided_cases.\n"
 	ctx.WriteShards("cases", header, "case", footer, terms, descs, 16)
+	sheader := "From C17 Require Import Model ScopeModel Corr.\nOpen Scope nat_scope.\n"
+	sfooter := "Definition res := Eval vm_compute in scheck_all cases.\nPrint res.\nDefinition scope_probes_compared := Eval vm_compute in scope_probes cases.\nPrint scope_probes_compared.\nDefinition scopes_reported_synchronized := Eval vm_compute in scopes_seen_synchronized cases.\nPrint scopes_reported_synchronized.\n"
+	ctx.WriteShards("scopes", sheader, "scase", sfooter, sterms, sdescs, 4)
 }
